@@ -167,7 +167,7 @@ def main():
                 # operator-form object inside a basis context (of the
                 # Hamiltonian and of another operator), read there and after
                 # the context is left
-                if not td:
+                if True:
                     Bm = numpy.random.RandomState(n + s).randn(n, n)
                     Aop = qr.qm.SelfAdjointOperator(data=(Bm + Bm.T) / 2)
                     for cname, cop in (("H", ham), ("A", Aop)):
@@ -176,7 +176,7 @@ def main():
                         else:
                             Rfresh, _h = ag.get_RelaxationTensor(
                                 ta, relaxation_theory=theory,
-                                as_operators=True)
+                                time_dependent=td, as_operators=True)
                         with qr.eigenbasis_of(cop):
                             Rfresh.convert_2_tensor()
                             c1 = numpy.array(Rfresh.data)
@@ -192,7 +192,8 @@ def main():
                         if e > 1e-10:
                             ck.violation(
                                 "operator-equals-tensor",
-                                "conversion-first-in-context:%s" % theory,
+                                "conversion-first-in-context:%s:td=%s" % (
+                                    theory, td),
                                 dict(rp, context=cname, err=e), rp)
         # time-dependent tensor: zero at t = 0, equals TI tensor at the end
         rp = dict(kind="td-limits", seed=ck.seed, system=s, N=Nm)
